@@ -20,6 +20,8 @@ type Ctx struct {
 	R    *ob.Report
 	Tier string
 	Gen  []*GenPkg // materialised executor packages (template properties)
+	// Alt386 lazily loads ./graphql for GOARCH=386 (thorough tier, lossy-conv)
+	Alt386 func() *pipeline.World
 }
 
 // GenPkg is one materialised executor package.
